@@ -35,6 +35,7 @@ type c12Crash struct{}
 type c12State struct {
 	files    map[string]*c12File
 	handles  map[*os.File]string
+	noTrunc  map[*os.File]string // handles opened for writing without O_TRUNC -> what the file held when opened
 	step     int
 	crashAt  int
 	sameFS   bool
@@ -191,6 +192,46 @@ func verifOSCreate(name string) (*os.File, error) {
 	return h, nil
 }
 
+// verifOSOpenFile: the general open. Without O_TRUNC an existing file keeps its bytes: whatever is then written
+// over it from offset 0 leaves the tail of the old content in place when the new content is shorter.
+func verifOSOpenFile(name string, flag int, perm fs.FileMode) (*os.File, error) {
+	if flag&(os.O_WRONLY|os.O_RDWR) == 0 {
+		return verifOSOpen(name)
+	}
+	if flag&os.O_TRUNC != 0 && flag&os.O_CREATE != 0 {
+		return verifOSCreate(name)
+	}
+	c12Step("openfile")
+	if c12Fail("openfile") {
+		return nil, errors.New("open failed")
+	}
+	if name == "t.yml" {
+		c12.fallback = true
+	}
+	f, ok := c12.files[name]
+	exists := ok && f.content != c12Absent
+	if !exists {
+		if flag&os.O_CREATE == 0 {
+			return nil, c12ErrNotExist
+		}
+		c12.files[name] = &c12File{content: c12Empty, mode: uint32(perm)}
+		f = c12.files[name]
+	} else if flag&os.O_EXCL != 0 && flag&os.O_CREATE != 0 {
+		return nil, errors.New("file exists")
+	} else if flag&os.O_TRUNC != 0 {
+		f.content = c12Empty
+	}
+	h := new(os.File)
+	c12.handles[h] = name
+	if flag&os.O_TRUNC == 0 && flag&os.O_APPEND == 0 {
+		c12.noTrunc[h] = verifItoa(int64(f.content))
+	}
+	if flag&os.O_APPEND != 0 && f.content != c12Empty {
+		c12.noTrunc[h] = "append"
+	}
+	return h, nil
+}
+
 func verifIOCopy(dst io.Writer, src io.Reader) (int64, error) {
 	d := c12.files[c12.handles[dst.(*os.File)]]
 	s := c12.files[c12.handles[src.(*os.File)]]
@@ -203,6 +244,12 @@ func verifIOCopy(dst io.Writer, src io.Reader) (int64, error) {
 	}
 	c12Step("copy-end")
 	d.content = s.content
+	if was, ok := c12.noTrunc[dst.(*os.File)]; ok && was != verifItoa(c12Empty) {
+		// written over (or after) existing bytes that were never truncated away
+		if was == "append" || verifConcreteBool(verifBool("newContentShorterThanOld")) {
+			d.content = c12Partial
+		}
+	}
 	return 1, nil
 }
 
@@ -242,7 +289,7 @@ func c12Write(f *os.File, ok bool) {
 }
 
 func VerifC12InPlace() {
-	c12 = &c12State{files: map[string]*c12File{}, handles: map[*os.File]string{}}
+	c12 = &c12State{files: map[string]*c12File{}, handles: map[*os.File]string{}, noTrunc: map[*os.File]string{}}
 	c12.oldMode = uint32(verifIntRange("mode", 0, 0o777))
 	c12.files["t.yml"] = &c12File{content: c12Old, mode: c12.oldMode}
 	c12.crashAt = verifChoice("crashBeforeStep", verifParam("maxsteps", 18)+1) // 0 = no crash
